@@ -17,13 +17,16 @@ META = {
                    "system and the state reported to the NEXT connection must equal the reference model. "
                    "(2) Depth-3/4 sequences of eight event kinds cross-check reachability.",
     "bounds": {"states": "0,1,2 x {c1,c2} x {e1,e2}", "message": "6 types x 3 sids x 2-3 payloads",
-               "depth": "1 (induction) + 3 (quick) / 4 (thorough) event sequences"},
+               "depth": "1 (induction) + 3 (quick) / 4 (thorough) event sequences; after an accepted step that leaves "
+               "state 2, three more searches on the same connection (two with one digest, one without)",
+               "service ids": "through connector.handler: 3 spellings (lower case, mixed case, padded with blanks) x 3 "
+               "placements of reconnects; a path-like id only as the OTHER service"},
     "outside_bounds": "the websockets library and real sockets; overlapping connections (C12); crashes inside a "
                       "handler (C13)",
     "stubs": ["file managers over env/memfs.py (POSIX semantics of mkdir/open/write/close/unlink/rmtree)",
               "asyncio -> env/aio.py cooperative runtime; fake websocket; loggers silenced"],
     "assumptions": ["real PiBas scheme with the real HMAC/AES for the search path (concrete fixtures)"],
-    "functions": ["frontend.server.services.service.Service.{__init__,_recv_message,handle_upload_config,"
+    "functions": ["frontend.server.connector.handler", "frontend.server.services.service.Service.{__init__,_recv_message,handle_upload_config,"
                   "handle_upload_encrypted_database,handle_search_token,send_init_echo,close_service}",
                   "frontend.server.services.file_manager.*", "frontend.server.services.comm.send_message"],
 }
@@ -192,6 +195,16 @@ def h_step(P, S):
     bad = _check_step(S, fs, m, new, err, t, sidk, payload, before)
     if bad:
         return S.fail(bad)
+    if m.state == 2 and err is None and sidk == 0 and t in ("config", "upload_edb", "token"):
+        # the SAME connection goes on: two searches for different keywords that carry the same (client-chosen,
+        # unverified) digest, then one without a digest - each answered from the accepted index
+        for word, extra in ((b"kw", {"token_digest": b"same"}), (b"other", {"token_digest": b"same"}), (b"absent", {})):
+            ws.closed = aio.Future()
+            new2, err2 = _deliver(svc, ws, rt, FE.msg("token", FE.SID, FE.FIX["tokens"][word], **extra))
+            if err2 is not None:
+                return S.fail("search-on-the-same-connection-raised:%s" % type(err2).__name__)
+            if len(new2) != 1 or new2[0][0] != "result" or new2[0][1] != FE.expected_result(m.edb, word):
+                return S.fail("search-on-the-same-connection-not-from-accepted-index")
     _end(S, svc, "post_")
     if not _fs_ok(fs, m):
         return S.fail("files-after-connection-end")
@@ -262,8 +275,75 @@ def h_seq(P, S):
     return True
 
 
+SIDS = [FE.SID, "5F1D0C6E-Own-Service-ID", " 5f1d0c6e-own-service-id ", "svc/../x"]
+
+
+def h_handler(P, S):
+    """through connector.handler: the service id is an opaque string - the whole workflow for a solver-chosen
+    spelling, and afterwards every OTHER spelling still names a service that does not exist"""
+    fs, rt = FE.world()
+    FE.reset_server()
+    sid = SIDS[S.pick("sid", 0, 2)]
+    if P.get("twin"):
+        return False
+
+    def settle():
+        rt.run_until_idle()
+        for _ in range(6):
+            pend = rt.pending_sleeps()
+            if not pend:
+                break
+            for f in pend:
+                f.set_result()
+            rt.run_until_idle()
+
+    split = S.pick("split", 0, 2)          # 0: one connection, 1: reconnect after config, 2: reconnect after every step
+    ws = aio.FakeWS("a")
+    FE.connect(rt, ws, sid)
+    rt.run_until_idle()
+    if FE.frames(ws) != [("init", {"ok": True, "state": 0}, None)]:
+        return S.fail("new-service-not-reported-as-state-0")
+    script = [("config", pickle.dumps(FE.FIX["c1"]), {}, 1), ("upload_edb", FE.FIX["e1"], {}, 2),
+              ("token", FE.FIX["tokens"][b"kw"], {"token_digest": b"d"}, 2)]
+    for i, (t, content, extra, st) in enumerate(script):
+        n0 = len(ws.sent)
+        ws.feed(FE.msg(t, sid, content, **extra))
+        rt.run_until_idle()
+        new = FE.frames(ws)[n0:]
+        if len(new) != 1:
+            return S.fail("request-%s-got-%d-replies" % (t, len(new)))
+        if t == "token":
+            if new[0][0] != "result" or new[0][1] != FE.expected_result("e1", b"kw"):
+                return S.fail("search-not-from-accepted-index")
+        elif new[0][1] != {"ok": True}:
+            return S.fail("request-%s-not-acknowledged" % t)
+        if (split == 1 and i == 0) or split == 2:
+            ws.close_now()
+            settle()
+            ws = aio.FakeWS("b%d" % i)
+            FE.connect(rt, ws, sid)
+            rt.run_until_idle()
+            if FE.frames(ws) != [("init", {"ok": True, "state": st}, None)]:
+                return S.fail("reconnect-reports-wrong-state")
+    ws.close_now()
+    settle()
+    for other in SIDS:
+        if other == sid:
+            continue
+        wo = aio.FakeWS("o")
+        FE.connect(rt, wo, other)
+        rt.run_until_idle()
+        if FE.frames(wo) != [("init", {"ok": True, "state": 0}, None)]:
+            return S.fail("another-service-id-shares-state")
+        wo.close_now()
+        settle()
+    return True
+
+
 def obligations(tier, seed):
-    obs = [ob("c10.step.s%d" % st, "harness.c10", "h_step", {"seed": seed, "states": [st]}, budget_s=900)
+    obs = [ob("c10.handler", "harness.c10", "h_handler", {"seed": seed}, budget_s=600),
+           twin("c10.handler.twin", "harness.c10", "h_handler", {"twin": True})]
+    obs += [ob("c10.step.s%d" % st, "harness.c10", "h_step", {"seed": seed, "states": [st]}, budget_s=900)
            for st in (0, 1, 2)]
     obs.append(twin("c10.step.twin", "harness.c10", "h_step", {"twin": True}))
     depth = 3 if tier == "quick" else 4
